@@ -292,11 +292,7 @@ func (s *Session) setStorageCallbacks() {
 			return true
 		}
 
-		resendMessages, err := s.messageStorage.Messages(fix.StorageID{
-			Sender: s.LogonSettings.SenderCompID,
-			Target: s.LogonSettings.TargetCompID,
-			Side:   fix.Outgoing,
-		}, resendMsg.BeginSeqNo(), resendMsg.EndSeqNo())
+		resendMessages, err := s.storedMessages(resendMsg.BeginSeqNo(), resendMsg.EndSeqNo())
 		if err != nil {
 			return true
 		}
@@ -305,6 +301,30 @@ func (s *Session) setStorageCallbacks() {
 
 		return true
 	})
+}
+
+// storedMessages returns the messages sent under the numbers from..to;
+// to = 0 means through the last message sent. The send lock is held so that
+// a number which is being assigned right now is not counted before its message is stored.
+func (s *Session) storedMessages(from, to int) ([]simplefixgo.SendingMessage, error) {
+	s.mu.Lock()
+	defer s.mu.Unlock()
+
+	storageID := fix.StorageID{
+		Sender: s.LogonSettings.SenderCompID,
+		Target: s.LogonSettings.TargetCompID,
+		Side:   fix.Outgoing,
+	}
+
+	if to == 0 {
+		last, err := s.counter.GetCurrSeqNum(storageID)
+		if err != nil {
+			return nil, err
+		}
+		to = last
+	}
+
+	return s.messageStorage.Messages(storageID, from, to)
 }
 
 func (s *Session) SetLogonRequest(logonRequest func(*Session) error) {
